@@ -1,6 +1,7 @@
 import Driver.Util
 import Driver.C04
 import Paroxy.Model.Costs
+import Paroxy.Model.CostsShared
 open Lean Paroxy Paroxy.Filter Paroxy.Costs
 
 namespace Driver.C07
@@ -45,6 +46,43 @@ def history : Handler := fun j => do
   let (m, sp) := go { knowledge := K0, memo := [] } ops #[] #[]
   pure (Json.mkObj [("model", Json.arr m), ("spec", Json.arr sp)])
 
-def handlers : List (String × Handler) := [("cost.taxon", taxon), ("cost.history", history)]
+def parseSOp (j : Json) : Except String SOp := do
+  let kind ← getStr j "kind"
+  if kind == "mutate" then
+    pure (.mutateKnowledge (← getInt j "addr").toNat (← C04.codesList (← j.getObjVal? "add"))
+      (← C04.codesList (← j.getObjVal? "del")))
+  else if kind == "set" then pure (.setKnowledge (← getInt j "addr").toNat)
+  else if kind == "clear" then pure .foreignClear
+  else if kind == "taxon" then pure (.taxonCost (codesOf (← getStr j "taxon")))
+  else if kind == "assess" then pure (.assess (← C04.codesList (← j.getObjVal? "selected")))
+  else throw "unknown shared-assessor op"
+
+/-- `cost.shared`: a sequence of operations on the assessor machine WITH the heap of knowledge set
+objects (`SState`): `model` = the memoised machine, `snap` = the snapshot machine
+(`C07_shared_stale_characterised`: equal), `spec` = the pure recomputation under the knowledge read at
+each step, `knowledge` = that knowledge, `disciplined_prefix` = the length of the longest prefix of the
+history that follows the `run_pipeline` discipline (`disciplined`; up to there `model = spec` by
+`C07_shared_disciplined_sound`). -/
+def shared : Handler := fun j => do
+  let strat ← C04.parseStrategy (← getStr j "strategy")
+  let progs ← C04.pairs (← j.getObjVal? "programs") C04.parseTaxaSpans
+  let ops ← (← getArr j "ops").toList.mapM parseSOp
+  let heap0 : Heap ← (← getArr j "heap0").toList.mapM fun e => do
+    let a ← e.getArrVal? 0
+    let k ← e.getArrVal? 1
+    pure ((← a.getInt?).toNat, ← C04.codesList k)
+  let ptr0 := (← getInt j "ptr0").toNat
+  let m := srun strat progs { heap := heap0, ptr := ptr0, memo := [] } ops
+  let g := grun strat progs { heap := heap0, ptr := ptr0, snap := [] } ops
+  let outs (l : List (List Codes × SOp × AOut)) : Json := Json.arr (l.map fun e => outJson e.2.2).toArray
+  let spec := Json.arr (m.map fun e => outJson (pureOutS strat progs e.1 e.2.1)).toArray
+  let kn := Json.arr (m.map fun e => C04.sortedStrs e.1).toArray
+  let n := ops.length
+  let pref := ((List.range (n + 1)).filter fun k => disciplined ptr0 false (ops.take k)).foldl max 0
+  pure (Json.mkObj [("model", outs m), ("snap", outs g), ("spec", spec), ("knowledge", kn),
+    ("disciplined_prefix", Json.num (pref : Nat))])
+
+def handlers : List (String × Handler) :=
+  [("cost.taxon", taxon), ("cost.history", history), ("cost.shared", shared)]
 
 end Driver.C07
